@@ -939,9 +939,9 @@ class Parser:
             elif exprnode.op == '%':
                 return left - self._c_div(left, right) * right
             elif exprnode.op == '<<':
-                return left << right
+                return left << self._c_shift_count(right)
             elif exprnode.op == '>>':
-                return left >> right
+                return left >> self._c_shift_count(right)
             elif exprnode.op == '&':
                 return left & right
             elif exprnode.op == '|':
@@ -959,6 +959,13 @@ class Parser:
         if ((a < 0) ^ (b < 0)) and (a % b) != 0:
             result += 1
         return result
+
+    def _c_shift_count(self, n):
+        # like in C, with 64 bits as the width of the largest integer type
+        if not (0 <= n < 64):
+            raise FFIError("invalid shift count %d in constant expression"
+                           % (n,))
+        return n
 
     def _build_enum_type(self, explicit_name, decls):
         if decls is not None:
